@@ -27,6 +27,9 @@ pub struct Case18 {
     pub flags: Vec<String>,
     pub ops: Vec<RawOp>,
     pub shuffle_seed: u64,
+    /// compile pool member i with Regex::xsd (a repeated member then has the same text under the other dialect)
+    #[serde(default)]
+    pub xsd: Vec<bool>,
 }
 
 const REPS: &[&str] = &["", "x", "[$0]", "$1", "\\$", "$"];
@@ -38,9 +41,15 @@ pub fn build(case: &Case18) -> History {
         let node = resolve(n);
         let f = case.flags.get(i).cloned().unwrap_or_default();
         alpha.extend(gen::input_alphabet(&node, Flags::from_str(&f), &[]));
+        let xsd = case.xsd.get(i).copied().unwrap_or(false);
         if i > 0 && case.dup.get(i).copied().unwrap_or(false) {
-            let prev = pool[i - 1].clone();
+            let mut prev = pool[i - 1].clone();
+            if xsd {
+                prev.0 = if prev.0 == Dialect::XPath { Dialect::Xsd } else { Dialect::XPath };
+            }
             pool.push(prev);
+        } else if xsd {
+            pool.push((Dialect::Xsd, render(&node, Dialect::Xsd), f));
         } else {
             pool.push((Dialect::XPath, render(&node, Dialect::XPath), f));
         }
@@ -79,6 +88,50 @@ fn check(case: &Case18, ctx: &mut Ctx) -> Verdict {
         Some(h) => h,
         None => return Verdict::Skip("no-history-outcome"),
     };
+    // process-wide state: every pool member, asked again in this (long-lived, by now well used) worker process,
+    // must answer exactly as in a brand-new process that has never compiled anything else
+    let inputs_of = |i: usize| -> Vec<String> {
+        let mut v: Vec<String> = h
+            .ops
+            .iter()
+            .filter_map(|o| match o {
+                Op::IsMatch { re, input } | Op::OpenTokens { re, input } | Op::OpenAnalyze { re, input } | Op::Replace { re, input, .. } if re % h.pool.len() == i => Some(input.clone()),
+                _ => None,
+            })
+            .take(4)
+            .collect();
+        v.push("ab".into());
+        v
+    };
+    for (i, (d, p, f)) in h.pool.iter().enumerate() {
+        // members whose text also occurs elsewhere in the pool (that is where a process-wide table keyed too
+        // coarsely would show), and always the first member
+        let shared = h.pool.iter().enumerate().any(|(k, m)| k != i && m.1 == *p);
+        if i != 0 && !shared {
+            continue;
+        }
+        let mut j = Job::new(*d, p, f);
+        j.inputs = inputs_of(i);
+        j.replacements = vec!["[$0]".into()];
+        let here = ctx.w.run(&j);
+        let mut fresh_worker = crate::supervisor::WorkerHandle::new();
+        let fresh = fresh_worker.run(&j);
+        ctx.obs.eval(2);
+        if let (JobResult::Done(a), JobResult::Done(b)) = (&here, &fresh) {
+            if let Some(d) = super::c08::diff_outcomes(a, b, &j.inputs) {
+                let d = d.replace("optimised", "used-process").replace("unoptimised", "fresh-process");
+                return Verdict::Fail(Failure {
+                    sub: "process-wide-state".into(),
+                    expected: "the same results in a worker process that has compiled other regexes before as in a brand-new process".into(),
+                    actual: d,
+                    detail: format!("member #{i} {:?} of pool={:?}", h.pool[i], h.pool),
+                });
+            }
+        }
+    }
+    if h.pool.iter().any(|m| m.0 == Dialect::Xsd) {
+        ctx.obs.label("pool-mixes-dialects");
+    }
     if ho.compile_failed {
         return Verdict::Skip("compile_err");
     }
@@ -122,8 +175,9 @@ impl Prop for C18 {
             prop::collection::vec(gen::flags_strategy("smi"), 4..=4),
             prop::collection::vec(op, 10..60),
             any::<u64>(),
+            prop::collection::vec(prop::bool::weighted(0.3), 4..=4),
         )
-            .prop_map(|(nodes, dup, flags, ops, shuffle_seed)| Case18 { nodes, dup, flags, ops, shuffle_seed })
+            .prop_map(|(nodes, dup, flags, ops, shuffle_seed, xsd)| Case18 { nodes, dup, flags, ops, shuffle_seed, xsd })
             .boxed();
         vec![Part { name: "histories".into(), strategy: s, cases: tier.pick(20_000, 500_000) }]
     }
@@ -168,12 +222,13 @@ impl Prop for C18 {
         1500
     }
     fn rule(&self) -> String {
-        "evaluation = one API call of a generated history (10-60 operations over a pool of 2-4 regexes: is_match, replace_all, open tokenize / analyze iterators, advance one of the live iterators by 1-3 steps, drop one) executed (2) in order on shared objects with the iterators interleaved, (3) in a seeded shuffled order, (4) from 4 threads x 4 repetitions behind a barrier, each compared with (1) the same call on a freshly compiled Regex; plus a compile-time assertion crate for Regex: Send + Sync; non-trivial = at some point two iterators were alive on one regex, or two pool members were compiled from the same text; distinct = distinct histories. Threads are real OS threads: a stress, not schedule enumeration".into()
+        "evaluation = one API call of a generated history (10-60 operations over a pool of 2-4 regexes: is_match, replace_all, open tokenize / analyze iterators, advance one of the live iterators by 1-3 steps, drop one) executed (2) in order on shared objects with the iterators interleaved, (3) in a seeded shuffled order, (4) from 4 threads x 4 repetitions behind a barrier, each compared with (1) the same call on a freshly compiled Regex; (5) every pool member asked again in the used worker process vs in a brand-new process (process-wide state; members are compiled under both dialects); plus a compile-time assertion crate for Regex: Send + Sync; non-trivial = at some point two iterators were alive on one regex, or two pool members were compiled from the same text; distinct = distinct histories. Threads are real OS threads: a stress, not schedule enumeration".into()
     }
     fn guards(&self) -> Vec<Guard> {
         vec![
             Guard { label: "two-live-iterators-on-one-regex".into(), of: "".into(), min_fraction: 0.3 },
-            Guard { label: "same-pattern-compiled-twice".into(), of: "".into(), min_fraction: 0.3 },
+            Guard { label: "same-pattern-compiled-twice".into(), of: "".into(), min_fraction: 0.1 },
+            Guard { label: "pool-mixes-dialects".into(), of: "".into(), min_fraction: 0.3 },
         ]
     }
     fn assumptions(&self) -> Vec<String> {
